@@ -107,16 +107,22 @@ ares_status_t
     return ARES_EFORMERR;
   }
 
-  memset(&channel->sock_funcs, 0, sizeof(channel->sock_funcs));
-
-  /* Copy individually for ABI compliance.  memcpy() with a sizeof would do
-   * invalid reads */
+  /* Validate before touching the channel: a rejected call must leave the
+   * functions already in place (the defaults, or the application's earlier
+   * ones) untouched, not zeroed */
   if (funcs->version >= 1) {
     if (funcs->asocket == NULL || funcs->aclose == NULL ||
         funcs->asetsockopt == NULL || funcs->aconnect == NULL ||
         funcs->arecvfrom == NULL || funcs->asendto == NULL) {
       return ARES_EFORMERR;
     }
+  }
+
+  memset(&channel->sock_funcs, 0, sizeof(channel->sock_funcs));
+
+  /* Copy individually for ABI compliance.  memcpy() with a sizeof would do
+   * invalid reads */
+  if (funcs->version >= 1) {
     channel->sock_funcs.version         = funcs->version;
     channel->sock_funcs.flags           = funcs->flags;
     channel->sock_funcs.asocket         = funcs->asocket;
